@@ -804,15 +804,20 @@ def urlencode_fn(
     if fmt == "PATH":
         return urllib.parse.quote(url, safe="")
     elif fmt == "QUERY":
-        return urllib.parse.quote_plus(url)
-    # All else in WIKI encoding
-    return wikiurlencode(url)
+        # PHP's urlencode() also escapes "~"
+        return urllib.parse.quote_plus(url).replace("~", "%7E")
+    # All else in WIKI encoding: every space becomes an underscore
+    return urllib.parse.quote(url.replace(" ", "_"), safe=WIKI_URL_SAFE)
+
+
+# MediaWiki's wfUrlencode() leaves these characters unescaped
+WIKI_URL_SAFE = ";@$!*(),/~:"
 
 
 def wikiurlencode(url: str) -> str:
     assert isinstance(url, str)
     url = re.sub(r"\s+", "_", url)
-    return urllib.parse.quote(url, safe="/:")
+    return urllib.parse.quote(url, safe=WIKI_URL_SAFE)
 
 
 def anchorencode_fn(
